@@ -36,9 +36,9 @@ type c10Batch struct {
 }
 
 var (
-	c10RetrySL = []string{"busy", "tmo", "garbage:chk", "garbage:noise", "garbage:len", "garbage:empty", "garbage:short", "lost", "refused"}
+	c10RetrySL = []string{"busy", "tmo", "garbage:chk", "garbage:noise", "garbage:len", "garbage:empty", "garbage:short", "garbage:reflect", "lost", "refused"}
 	c10TermSL  = []string{"ok", "cc:c1", "ccb:d4", "cc:ff", "trunc"}
-	c10RetryIn = []string{"busy", "tmo", "garbage:noise", "garbage:authmsg", "badsig", "garbage:chk", "garbage:short"}
+	c10RetryIn = []string{"busy", "tmo", "garbage:noise", "garbage:authmsg", "badsig", "garbage:chk", "garbage:short", "garbage:reflect"}
 	c10TermIn  = []string{"ok", "cc:c1", "ccb:d4", "cc:ff", "trunc", "lost", "refused"}
 	c10CmdsSL  = []string{"sl-authcaps", "sl-guid", "sl-raw", "sl-dcmicap"}
 	c10CmdsIn  = []string{"devid", "authcaps", "chassis", "raw", "power", "getsdr"}
